@@ -241,7 +241,7 @@ pub fn read_replay(path: &str) -> Option<Replay> {
         cap: fields.get("cap").and_then(|s| s.parse().ok()).unwrap_or(0),
         check_every: fields.get("check_every").and_then(|s| s.parse().ok()).unwrap_or(1),
         cursor_every: 1,
-        focus: "",
+        focus: static_prop(fields.get("property").map(|s| s.as_str()).unwrap_or("")),
     };
     Some(Replay { prop: fields.get("property").cloned().unwrap_or_default(), kind: fields.get("kind").cloned().unwrap_or_else(|| "map".into()), cfg, ops, fields })
 }
